@@ -4,7 +4,6 @@ import (
 	"bytes"
 	"fmt"
 	"io"
-	"strings"
 )
 
 type TemplateWriter interface {
@@ -95,33 +94,10 @@ func newTemplate(set *TemplateSet, name string, isTplString bool, tpl []byte) (*
 }
 
 func (tpl *Template) newContextForExecution(context Context) (*Template, *ExecutionContext, error) {
-	if tpl.Options.TrimBlocks || tpl.Options.LStripBlocks {
-		// Issue #94 https://github.com/flosch/pongo2/issues/94
-		// If an application configures pongo2 template to trim_blocks,
-		// the first newline after a template tag is removed automatically (like in PHP).
-		prev := &Token{
-			Typ: TokenHTML,
-			Val: "\n",
-		}
-
-		for _, t := range tpl.tokens {
-			if tpl.Options.LStripBlocks {
-				if prev.Typ == TokenHTML && t.Typ != TokenHTML && t.Val == "{%" {
-					prev.Val = strings.TrimRight(prev.Val, "\t ")
-				}
-			}
-
-			if tpl.Options.TrimBlocks {
-				if prev.Typ != TokenHTML && t.Typ == TokenHTML && prev.Val == "%}" {
-					if len(t.Val) > 0 && t.Val[0] == '\n' {
-						t.Val = t.Val[1:len(t.Val)]
-					}
-				}
-			}
-
-			prev = t
-		}
-	}
+	// Issue #94 https://github.com/flosch/pongo2/issues/94
+	// TrimBlocks / LStripBlocks are applied by the text nodes of this template
+	// while they are written (see nodeHTML.Execute); the tokens of the compiled
+	// template are not modified, so every execution starts from the same text.
 
 	// Determine the parent to be executed (for template inheritance)
 	parent := tpl
@@ -159,6 +135,7 @@ func (tpl *Template) newContextForExecution(context Context) (*Template, *Execut
 
 	// Create operational context
 	ctx := newExecutionContext(parent, newContext)
+	ctx.executing = tpl
 
 	return parent, ctx, nil
 }
